@@ -73,7 +73,7 @@ func (e *Exec) walkModel(st *State, name string, sig *types.Signature, args []Va
 
 // callsiteChecks emits the call-site assertions of the function under verification that name this callee.
 func (e *Exec) callsiteChecks(st *State, fn *types.Func, recv *Val, args []Val, x *ast.CallExpr) {
-	if x == nil || e.quiet || e.inContract > 0 || st.dead {
+	if x == nil || e.suppressSites() || e.inContract > 0 || st.dead {
 		return
 	}
 	fc := e.frames[0].contract
